@@ -23,6 +23,10 @@ dataset object the tool builds, captured from the tool itself) is driven for eve
 n <= 4 items to <= 3 simulated workers and every per-worker order, each worker carrying its own
 dirty torch RNG state; the same dataset is also rebuilt for every manifest prefix.
 
+large_manifest: the real tool, in-process, on maps of up to 3200 (thorough 6400) utterances with
+40-character ids whose manifests cross 4 KiB, 8 KiB, 64 KiB and 128 KiB (256 KiB), the manifest ending
+within a few lines of each of these sizes, for every alignment of the lines relative to the block grid.
+
 manifest_subsets: the real tool, in-process, for every order of 4 related utterance ids in the map
 (prefix / suffix / substring of one another, number look-alikes, case / suffix look-alikes), --seed 0
 and 3, and EVERY subset of the ids already listed in the manifest (lines in map order and reversed):
@@ -805,6 +809,272 @@ def computers_call(fn, *args):
     return computers.call(fn, *args)
 
 
+# ------------------------------------------------------------------ manifests larger than any block size
+
+LARGE_ID_WIDTH = 40                      # characters per id; a manifest line is 41 characters (odd: no
+#                                          power of two is a multiple of it)
+LARGE_BLOCKS = {"quick": (4096, 8192, 65536, 131072), "thorough": (4096, 8192, 65536, 131072, 262144)}
+LARGE_SHAPES = ("prefix", "spread")
+LARGE_FULL_SHIFTS = (0, 17)              # shape "full": the tool writes the large manifest itself
+LARGE_SIGNALS = 7                        # distinct tiny signals (3 .. 9 samples), shared by the utterances
+LARGE_TAIL = 3                           # utterances that are NOT listed in the manifest
+
+
+def large_ids(n, shift, shape):
+    """n ids of LARGE_ID_WIDTH characters; the first LISTED one is `shift` characters longer, which moves
+    every later line of the manifest by `shift` characters relative to any block grid"""
+    ids = ["spk%03d-large-manifest-utt%015d" % (i % 13, i) for i in range(n)]
+    if any(len(u) != LARGE_ID_WIDTH for u in ids) or n < 8:
+        raise core.HarnessError("large-manifest ids are not %d characters wide" % LARGE_ID_WIDTH)
+    first = 0 if shape == "prefix" else 1
+    ids[first] = ids[first] + "x" * shift
+    return ids
+
+
+def large_counts(tier, shift):
+    """numbers K of listed ids: for every block size B the five values around the line that contains
+    character B of the manifest (so that the manifest ends before / inside / after the line that straddles
+    the boundary, and the boundary is in turn the last, an inner and no boundary of the manifest)"""
+    w = LARGE_ID_WIDTH + 1
+    out = set()
+    for B in LARGE_BLOCKS[tier]:
+        j = (B - shift) // w          # index of the line that holds character B (0-based)
+        out.update(k for k in range(j - 1, j + 4) if k > 0)
+    return sorted(out)
+
+
+def large_unlisted(shape, n):
+    """indices (into the map) of the LARGE_TAIL utterances that are not in the manifest"""
+    if shape == "prefix":
+        return list(range(n - LARGE_TAIL, n))        # what a kill leaves: the manifest is a prefix of the map
+    return [0, n // 2, n - 1]                         # a manifest with holes: first, middle and last missing
+
+
+def straddled_blocks(lines):
+    """-> {id: largest power of two B (>= 1024) such that a multiple of B lies strictly inside the line of
+    that id in the manifest text made of `lines`, or 0}"""
+    out, pos = {}, 0
+    for ln in lines:
+        a, b = pos, pos + len(ln) + 1                # the line occupies characters [a, b), newline included
+        best, B = 0, 1024
+        while B < 2 * b:
+            m = (a // B + 1) * B                     # first multiple of B above a
+            if a < m < b:
+                best = B
+            B *= 2
+        out[ln] = best
+        pos = b
+    return out
+
+
+def _large_manifest(pt, seed, only=None):
+    """pt = (shape, shift).  The real tool, in-process, no computer (raw samples), no pre-processing; for
+    every K of large_counts: a map of K + 3 utterances, a manifest that lists K of them (all but the last
+    three / all but the first, the middle and the last), a sentinel file for every listed id.  Afterwards:
+    every listed file untouched (I4), exactly the three unlisted ids written and equal to their samples as
+    a float32 column (I3), the manifest = its old lines + the three unlisted ids, each once (I1 / I2).
+    shape "full": an uninterrupted run over the largest map (empty manifest) followed by the same command
+    again (complete manifest, nothing to do).
+    only = K (or "full") restricts the inner enumeration (replay)."""
+    torch = _torch()
+    from pydrobert.speech import command_line as cl
+
+    shape, shift = pt[0], int(pt[1])
+    tier = pt[2] if len(pt) > 2 else "quick"
+    counts = large_counts(tier, shift)
+    d = tempfile.mkdtemp(prefix="verif-")
+    viol, evals, nontriv, obs = [], 0, 0, set()
+    try:
+        ind, out = os.path.join(d, "in"), os.path.join(d, "out")
+        os.makedirs(ind)
+        os.makedirs(out)
+        mpath, mapf = os.path.join(d, "manifest"), os.path.join(d, "map")
+        sigs = []
+        for j in range(LARGE_SIGNALS):
+            x = np.round(sig.signal(seed, 3 + j, offset=900 + j) * 1000.0)
+            np.save(os.path.join(ind, "%d.npy" % j), x)
+            sigs.append(torch.tensor(x, dtype=torch.float32).unsqueeze(-1))
+        nmax = max(counts) + LARGE_TAIL
+        ids_all = large_ids(nmax, shift, "prefix" if shape == "full" else shape)
+        index = {u: i for i, u in enumerate(ids_all)}       # every map is a prefix of ids_all
+        sentinels = {}                   # id -> (ino, mtime_ns, size) of its sentinel file
+
+        def fpath(u):
+            return out + os.sep + u + ".pt"
+
+        def run(ids, listed_idx, case, tags):
+            """one tool run on the map `ids` with the manifest listing ids[i], i in listed_idx (map order)"""
+            listed = [ids[i] for i in listed_idx]
+            lset = set(listed)
+            unlisted = [u for u in ids if u not in lset]
+            for nm in os.listdir(out):
+                u = nm[:-3]
+                if u not in lset:
+                    os.remove(os.path.join(out, nm))
+                    sentinels.pop(u, None)
+            for u in listed:
+                if u not in sentinels:
+                    with open(fpath(u), "wb") as f:
+                        f.write(SENTINEL)
+                    st = os.stat(fpath(u))
+                    sentinels[u] = (st.st_ino, st.st_mtime_ns, st.st_size)
+            with open(mapf, "w") as f:
+                f.write("".join("%s %s\n" % (u, os.path.join(ind, "%d.npy" % (i % LARGE_SIGNALS)))
+                                for i, u in enumerate(ids)))
+            with open(mpath, "w") as f:
+                f.write("".join(u + "\n" for u in listed))
+            torch.manual_seed(1000 + len(listed))
+            r = computers_call(cl.signals_to_torch_feat_dir, [mapf, out, "--manifest", mpath])
+            v = []
+            if r[0] != "ok" or r[1]:
+                v.append(core.violation(
+                    dict(tags, what="resume_differs", how="exit_code"),
+                    "map of %d utterances, manifest lists %d (%d characters): the tool %s" % (
+                        len(ids), len(listed), sum(len(u) + 1 for u in listed),
+                        "returned %r" % (r[1],) if r[0] == "ok" else "raised %s: %s" % r[1:]), case))
+                sentinels.clear()
+                return v
+            # I4: listed files untouched
+            # (inode, mtime, size) of EVERY listed file; the content of those whose manifest line holds a
+            # multiple of 1024 characters, and of the first and the last listed id
+            rewritten = []
+            sb = straddled_blocks(listed)
+            for j, u in enumerate(listed):
+                ok = os.path.exists(fpath(u))
+                if ok:
+                    st = os.stat(fpath(u))
+                    ok = (st.st_ino, st.st_mtime_ns, st.st_size) == sentinels[u]
+                    if ok and (sb[u] or j == 0 or j == len(listed) - 1):
+                        with open(fpath(u), "rb") as f:
+                            ok = f.read() == SENTINEL
+                if not ok:
+                    rewritten.append(u)
+                    sentinels.pop(u, None)
+            for B in sorted(set(sb[u] for u in rewritten)):
+                us = [u for u in rewritten if sb[u] == B]
+                v.append(core.violation(
+                    dict(tags, what="rewritten", how="rewritten", line_straddles_multiple_of=B),
+                    "I4: map of %d utterances, manifest lists %d of them (%d characters): the files of %d "
+                    "listed ids were written again or removed, e.g. %r (manifest line %d, characters %d..%d)" % (
+                        len(ids), len(listed), sum(len(u) + 1 for u in listed), len(us), us[0],
+                        listed.index(us[0]), sum(len(x) + 1 for x in listed[:listed.index(us[0])]),
+                        sum(len(x) + 1 for x in listed[:listed.index(us[0]) + 1])), case))
+            # I3: exactly the unlisted ids are written, with the documented content
+            bad = {}
+            for u in unlisted:
+                if not os.path.exists(fpath(u)):
+                    bad[u] = "missing"
+                    continue
+                with open(fpath(u), "rb") as f:
+                    t, err = load_bytes(f.read())
+                want = sigs[index[u] % LARGE_SIGNALS]
+                if t is None:
+                    bad[u] = "not loadable (%s)" % err
+                elif not same_tensor(t, want):
+                    bad[u] = "tensor differs"
+            extra = sorted(set(os.listdir(out)) - set(u + ".pt" for u in ids))
+            if bad or extra:
+                how = "values" if bad and not extra and all(x == "tensor differs" for x in bad.values()) \
+                    else "files"
+                v.append(core.violation(
+                    dict(tags, what="resume_differs", how=how),
+                    "I3: map of %d utterances, manifest lists %d: %d unlisted utterances are wrong after the "
+                    "run, e.g. %r; unexpected files %r" % (len(ids), len(listed), len(bad),
+                                                           sorted(bad.items())[:2], extra[:3]), case))
+            # manifest afterwards: the old lines, then every id this run completed, each once
+            with open(mpath) as f:
+                now = [ln.rstrip("\n") for ln in f]
+            known = set(ids)
+            unknown = [u for u in now if u not in known]
+            if unknown or len(set(now)) != len(now):
+                dup = sorted(set(u for u in now[len(listed):] if u in lset))
+                v.append(core.violation(
+                    dict(tags, what="manifest_lists_incomplete",
+                         how="unknown_id" if unknown else "duplicate_id"),
+                    "manifest before the run: %d lines, after: %d lines; %s" % (
+                        len(listed), len(now), "lines that are no ids: %r" % unknown[:3] if unknown else
+                        "%d ids are listed twice, e.g. %r" % (len(now) - len(set(now)), dup[:2])), case))
+            done = [u for u in unlisted if u not in bad]
+            if now[:len(listed)] != listed or [u for u in done if u not in now[len(listed):]]:
+                v.append(core.violation(
+                    dict(tags, what="manifest_misses_completed"),
+                    "I2: manifest before the run: %d lines; the run completed %r; afterwards the manifest has %d "
+                    "lines, old lines intact: %s, new lines %r" % (
+                        len(listed), done[:4], len(now), now[:len(listed)] == listed, now[len(listed):][:5]),
+                    case))
+            return v
+
+        base = dict(level="tool_inprocess", manifest="large")
+        if shape == "full":
+            # uninterrupted run over the largest map, then the same command again
+            case = dict(kind="large_manifest", shape=shape, shift=shift, tier=tier, only="full")
+            v = run(ids_all, [], case, dict(base, manifest_nonempty=False, manifest_is_map_prefix=True))
+            evals += 1
+            if not v:
+                # its own manifest now lists everything: freeze what it wrote, run again
+                for u in ids_all:
+                    st = os.stat(fpath(u))
+                    sentinels[u] = (st.st_ino, st.st_mtime_ns, st.st_size)
+                before = {u: sentinels[u] for u in ids_all}
+                r = computers_call(cl.signals_to_torch_feat_dir, [mapf, out, "--manifest", mpath])
+                evals += 1
+                nontriv += 1
+                tags = dict(base, manifest_nonempty=True, manifest_is_map_prefix=True)
+                if r[0] != "ok" or r[1]:
+                    v.append(core.violation(dict(tags, what="resume_differs", how="exit_code"),
+                                            "second run over a complete manifest of %d lines: %r" % (nmax, r[:2]),
+                                            case))
+                else:
+                    changed = [u for u in ids_all if not os.path.exists(fpath(u)) or
+                               (lambda st: (st.st_ino, st.st_mtime_ns, st.st_size))(os.stat(fpath(u))) != before[u]]
+                    sb = straddled_blocks(ids_all) if changed else {}
+                    for B in sorted(set(sb[u] for u in changed)):
+                        us = [u for u in changed if sb[u] == B]
+                        v.append(core.violation(
+                            dict(tags, what="rewritten", how="rewritten", line_straddles_multiple_of=B),
+                            "I4: a run of %d utterances wrote a manifest of %d characters; the same command "
+                            "again wrote the files of %d listed ids again, e.g. %r" % (
+                                nmax, sum(len(u) + 1 for u in ids_all), len(us), us[0]), case))
+                    with open(mpath) as f:
+                        now = [ln.rstrip("\n") for ln in f]
+                    if now != ids_all:
+                        v.append(core.violation(
+                            dict(tags, what="manifest_lists_incomplete",
+                                 how="duplicate_id" if len(set(now)) != len(now) else "unknown_id"),
+                            "the complete manifest (%d lines) has %d lines (%d distinct) after a second run "
+                            "that had nothing to do" % (nmax, len(now), len(set(now))), case))
+                sentinels.clear()
+            viol += v
+            obs.add("full:%d" % nmax)
+        for k in counts:
+            if shape == "full" or (only is not None and only != k):
+                continue
+            n = k + LARGE_TAIL
+            ids = ids_all[:n]
+            un = set(large_unlisted(shape, n))
+            listed_idx = [i for i in range(n) if i not in un]
+            case = dict(kind="large_manifest", shape=shape, shift=shift, tier=tier, only=k)
+            tags = dict(base, manifest_nonempty=True, manifest_is_map_prefix=(shape == "prefix"))
+            viol += run(ids, listed_idx, case, tags)
+            evals += 1
+            nontriv += 1
+            size = sum(len(ids[i]) + 1 for i in listed_idx)
+            obs.add("crosses:%d" % max([0] + [B for B in LARGE_BLOCKS[tier] if B < size]))
+        # one violation per signature and point is enough
+        seen, uniq = set(), []
+        for v in viol:
+            key = json.dumps(v["tags"], sort_keys=True)
+            if key not in seen:
+                uniq.append(v)
+            seen.add(key)
+        return core.result(uniq, evals=evals, nontrivial_count=nontriv, obs=[shape] + sorted(obs),
+                           impl_calls=evals,
+                           sample=dict(shape=shape, shift=shift, listed_counts=counts,
+                                       manifest_characters=[k * (LARGE_ID_WIDTH + 1) + shift for k in counts]))
+    finally:
+        shutil.rmtree(d, ignore_errors=True)
+
+
 # ------------------------------------------------------------------ python-level byte prefixes
 
 def _prefix_point(pt, ctx, seed):
@@ -987,6 +1257,28 @@ def subchecks(tier, seed, only=None):
                   manifest_line_order=["map order", "reversed"]),
         replay=lambda case: _manifest_subsets((case["idset"], tuple(case["perm"]), case["seed_opt"],
                                                case.get("naming", "default")), seed, only=case["only"]),
+        kind="manifests"))
+    lpts = [("full", shift, tier) for shift in LARGE_FULL_SHIFTS]      # the longest points first
+    lpts += [(shape, shift, tier) for shape in LARGE_SHAPES for shift in range(LARGE_ID_WIDTH + 1)]
+    scs.append(core.SubCheck(
+        "large_manifest", lpts, lambda p: _large_manifest(p, seed),
+        "manifests that are larger than any block a reader or writer may use: shape {the manifest is a prefix "
+        "of the map (what a kill leaves), the manifest has holes (first, middle and last utterance missing)} x "
+        "shift 0..%d (the first manifest line is that many characters longer, so that over all shifts a "
+        "multiple of every block size falls on EVERY character of a line, the newline included); inner: "
+        "every number K of listed ids within -1..+3 lines of the line that holds character B of the manifest, "
+        "B in %r (%d-character ids, map of K + 3 utterances, raw samples, no computer); shape 'full' (shifts "
+        "%r): the largest map uninterrupted (the tool writes the large manifest itself), then the same "
+        "command again. The real tool, in-process: every listed file keeps its inode / mtime / size, and its sentinel "
+        "content where its manifest line holds a multiple of 1024 characters or is the first or last (I4), exactly the unlisted "
+        "ids are written and hold their samples (I3), the manifest afterwards is its old lines plus the "
+        "unlisted ids, each once (I1, I2); non-trivial = a run with a non-empty manifest" % (
+            LARGE_ID_WIDTH, LARGE_BLOCKS[tier], LARGE_ID_WIDTH, LARGE_FULL_SHIFTS),
+        axes=dict(shape=list(LARGE_SHAPES) + ["full"], shift="0..%d" % LARGE_ID_WIDTH, blocks=list(LARGE_BLOCKS[tier]),
+                  id_width=LARGE_ID_WIDTH, unlisted=LARGE_TAIL,
+                  listed_counts_at_shift_0=large_counts(tier, 0)),
+        replay=lambda case: _large_manifest((case["shape"], case["shift"], case.get("tier", "quick")), seed,
+                                            only=case["only"]),
         kind="manifests"))
     scs.append(core.SubCheck(
         "mechanism", mpts, lambda p: _mechanism(p, seed),
